@@ -200,37 +200,157 @@ theorem preambleRow_header (d : Doc) (o : Opts) (fs : Nat) (coords : List Coord)
 
 /-! ### the walk -/
 
-theorem hangs_spec (d : Doc) (n s s' : Nat) (h : hangs d n s s' = true) :
-    (rowCoords s n).map (Doc.nodeAt d.stages) = (nodesOf d s n).map some ∧
-    (∀ nd ∈ nodesOf d s n, quietNode nd = true) ∧
-    (nodesOf d s n).map (·.parent) = (rowCoords s' n).map some := by
-  unfold hangs at h
+theorem mem_zip_resolve (d : Doc) : ∀ (cs : List Coord) (ns : List Node), cs.map (Doc.nodeAt d.stages) = ns.map some →
+    ∀ cn ∈ cs.zip ns, cn.1 ∈ cs ∧ Doc.nodeAt d.stages cn.1 = some cn.2 := by
+  intro cs
+  induction cs with
+  | nil => intro ns _ cn hcn; simp at hcn
+  | cons c t ih =>
+    intro ns h cn hcn
+    cases ns with
+    | nil => simp at h
+    | cons n ns' =>
+      simp only [List.map_cons, List.cons.injEq] at h
+      simp only [List.zip_cons_cons, List.mem_cons] at hcn
+      rcases hcn with rfl | hcn
+      · exact ⟨by simp, h.1⟩
+      · obtain ⟨h1, h2⟩ := ih ns' h.2 cn hcn
+        exact ⟨by simp [h1], h2⟩
+
+/-- the nodes of a line all of whose cells resolve -/
+def nodesAt (d : Doc) (cs : List Coord) : List Node := cs.map (fun c => (Doc.nodeAt d.stages c).getD Doc.rootNode)
+
+theorem silentRow_resolves (d : Doc) (o : Opts) (fs : Nat) (cs : List Coord) (h : silentRow d o fs cs = true) :
+    cs.map (Doc.nodeAt d.stages) = (nodesAt d cs).map some ∧
+    (nodesAt d cs).map (·.parent) = (parentsOf d cs).map some := by
+  unfold silentRow at h
   rw [List.all_eq_true] at h
-  have hi : ∀ i ∈ List.range n, ∃ nd, Doc.nodeAt d.stages (s, i) = some nd ∧ quietNode nd = true ∧ nd.parent = some (s', i) := by
-    intro i hi
-    have := h i hi
-    cases hn : Doc.nodeAt d.stages (s, i) with
-    | none => rw [hn] at this; simp at this
+  generalize rowHasOp d cs = op at h
+  unfold nodesAt parentsOf
+  induction cs with
+  | nil => exact ⟨rfl, rfl⟩
+  | cons c t ih =>
+    have hc := h c (by simp)
+    obtain ⟨i1, i2⟩ := ih (fun x hx => h x (by simp [hx]))
+    unfold silentCell at hc
+    cases hn : Doc.nodeAt d.stages c with
+    | none => rw [hn] at hc; simp at hc
     | some nd =>
-      rw [hn] at this
-      simp only [Bool.and_eq_true, beq_iff_eq] at this
-      exact ⟨nd, rfl, this.1, this.2⟩
-  unfold rowCoords nodesOf
-  simp only [List.map_map]
-  refine ⟨?_, ?_, ?_⟩
-  · apply List.map_congr_left
-    intro i hir
-    obtain ⟨nd, h1, _, _⟩ := hi i hir
-    simp [h1]
-  · intro nd hnd
-    simp only [List.mem_map] at hnd
-    obtain ⟨i, hir, rfl⟩ := hnd
-    obtain ⟨nd, h1, h2, _⟩ := hi i hir
-    simp [h1, h2]
-  · apply List.map_congr_left
-    intro i hir
-    obtain ⟨nd, h1, _, h3⟩ := hi i hir
-    simp [h1, h3]
+      rw [hn] at hc
+      simp only [Bool.and_eq_true] at hc
+      cases hp : nd.parent with
+      | none => rw [hp] at hc; simp at hc
+      | some p =>
+        constructor
+        · simp only [List.map_cons, hn, Option.getD_some, List.map_map] at i1 ⊢
+          rw [i1]
+        · simp only [List.map_cons, hn, Option.getD_some, List.filterMap_cons, Option.bind_some, hp, List.map_map] at i2 ⊢
+          rw [i2]
+
+theorem rowHasOp_zip (d : Doc) (cs : List Coord) (ns : List Node) (h : cs.map (Doc.nodeAt d.stages) = ns.map some) :
+    (cs.zip ns).any (fun cn => isOpNode cn.2) = rowHasOp d cs := by
+  unfold rowHasOp
+  induction cs generalizing ns with
+  | nil => cases ns <;> simp_all
+  | cons c t ih =>
+    cases ns with
+    | nil => simp at h
+    | cons n ns' =>
+      simp only [List.map_cons, List.cons.injEq] at h
+      simp only [List.zip_cons_cons, List.any_cons, h.1]
+      rw [ih ns' h.2]
+
+/-- what a silent cell contributes -/
+def silentOut (d : Doc) (o : Opts) (fs : Nat) (op : Bool) (cn : Coord × Node) : Str × Bool :=
+  if op then
+    if closedOp d fs cn.1 cn.2 then (['*'], false)
+    else match exportToken d o cn.2 with
+      | .ok s => (s, true)
+      | .error _ => ([], false)
+  else ([], false)
+
+theorem preambleCell_silent (d : Doc) (o : Opts) (fs : Nat) (op : Bool) (cn : Coord × Node)
+    (hn : Doc.nodeAt d.stages cn.1 = some cn.2) (hs : silentCell d o fs op cn.1 = true) :
+    preambleCell d o fs op cn = .ok (silentOut d o fs op cn) ∧ emptyRow [(silentOut d o fs op cn).1] = true := by
+  unfold silentCell at hs
+  rw [hn] at hs
+  simp only [Bool.and_eq_true, Bool.not_eq_true'] at hs
+  obtain ⟨⟨hh, _⟩, hop⟩ := hs
+  have hnothdr : ∀ e i, cn.2.tok ≠ some (.header e i) := by
+    intro e i ht
+    unfold isHeaderNode at hh
+    rw [ht] at hh
+    simp at hh
+  unfold preambleCell silentOut
+  cases op with
+  | false =>
+    constructor
+    · cases ht : cn.2.tok with
+      | none => simp [pure, Except.pure]
+      | some t =>
+        cases t with
+        | header e i => exact absurd ht (hnothdr e i)
+        | _ => simp [pure, Except.pure]
+    · simp only [Bool.false_eq_true, if_false]; decide
+  | true =>
+    simp only [if_true] at hop ⊢
+    by_cases hcl : closedOp d fs cn.1 cn.2 = true
+    · constructor
+      · cases ht : cn.2.tok with
+        | none => simp [hcl, pure, Except.pure]
+        | some t =>
+          cases t with
+          | header e i => exact absurd ht (hnothdr e i)
+          | _ => simp [hcl, pure, Except.pure]
+      · simp only [hcl, if_true]; decide
+    · have hcl' : closedOp d fs cn.1 cn.2 = false := by simpa using hcl
+      simp only [hcl', Bool.false_or] at hop
+      cases hex : exportToken d o cn.2 with
+      | error e => rw [hex] at hop; simp at hop
+      | ok s0 =>
+        rw [hex] at hop
+        constructor
+        · cases ht : cn.2.tok with
+          | none => simp [hcl', hex, bind, Except.bind, pure, Except.pure]
+          | some t =>
+            cases t with
+            | header e i => exact absurd ht (hnothdr e i)
+            | _ => simp [hcl', hex, bind, Except.bind, pure, Except.pure]
+        · simpa [hcl'] using hop
+
+/-- a silent line contributes at most a line of null tokens and hands the walk to its parents -/
+theorem preambleRow_silent (d : Doc) (o : Opts) (fs : Nat) (cs : List Coord) (h : silentRow d o fs cs = true) :
+    ∃ row keep, preambleRow d o fs cs = .ok (row, keep, (parentsOf d cs).map some) ∧ emptyRow row = true := by
+  obtain ⟨hres, hpar⟩ := silentRow_resolves d o fs cs h
+  have hlen : cs.length = (nodesAt d cs).length := by simp [nodesAt]
+  unfold preambleRow
+  rw [resolve_nodes d cs (nodesAt d cs) hres]
+  simp only [bind, Except.bind, pure, Except.pure]
+  rw [rowHasOp_zip d cs (nodesAt d cs) hres]
+  unfold silentRow at h
+  rw [List.all_eq_true] at h
+  have hcell : ∀ cn ∈ cs.zip (nodesAt d cs), preambleCell d o fs (rowHasOp d cs) cn = .ok (silentOut d o fs (rowHasOp d cs) cn) ∧
+      emptyRow [(silentOut d o fs (rowHasOp d cs) cn).1] = true := by
+    intro cn hcn
+    obtain ⟨h1, h2⟩ := mem_zip_resolve d cs (nodesAt d cs) hres cn hcn
+    exact preambleCell_silent d o fs _ cn h2 (h cn.1 h1)
+  rw [mapM_ok_of_forall _ (silentOut d o fs (rowHasOp d cs)) _ (fun cn hcn => (hcell cn hcn).1)]
+  have hparents : List.map (fun (cn : Coord × Node) => cn.2.parent) (cs.zip (nodesAt d cs)) = (parentsOf d cs).map some := by
+    have : (fun (cn : Coord × Node) => cn.2.parent) = (fun n : Node => n.parent) ∘ (·.2) := rfl
+    rw [this, ← List.map_map, zip_map_snd cs (nodesAt d cs) hlen, hpar]
+  refine ⟨((cs.zip (nodesAt d cs)).map (silentOut d o fs (rowHasOp d cs))).map (·.1) |>.filter (fun s => !s.isEmpty),
+    ((cs.zip (nodesAt d cs)).map (silentOut d o fs (rowHasOp d cs))).any (·.2), ?_, ?_⟩
+  · simp only [hparents]
+  · unfold emptyRow
+    rw [List.all_eq_true]
+    intro x hx
+    have hx' := (List.mem_filter.mp hx).1
+    simp only [List.map_map, List.mem_map] at hx'
+    obtain ⟨cn, hcn, rfl⟩ := hx'
+    have := (hcell cn hcn).2
+    unfold emptyRow at this
+    simpa using this
+
 
 theorem headerLine_spec (d : Doc) (o : Opts) (n h : Nat) (c0 : Coord) (hl : headerLine d o n h c0 = true) :
     (rowCoords h n).map (Doc.nodeAt d.stages) = (nodesOf d h n).map some ∧
@@ -331,72 +451,6 @@ theorem loop_chain (d : Doc) (o : Opts) (fs n : Nat) (hn : 0 < n) :
               (List.replicate_succ ..) (by simpa using hc) hrow hps]
             simp only [Bool.false_eq_true, if_false]
             exact ih p f rows h.2
-
-/-- from the first line of the excerpt up to the line of the `**` cells nothing is printed -/
-theorem loop_aligned (d : Doc) (o : Opts) (fs n h : Nat) (hn : 0 < n) :
-    ∀ (k s fuel : Nat) (rows : List (List Str)), alignedUp d n h k s = true → s < fuel →
-      ∃ fuel', h < fuel' ∧ preambleLoop d o fs fuel (rowCoords s n) rows = preambleLoop d o fs fuel' (rowCoords h n) rows := by
-  intro k
-  induction k with
-  | zero =>
-    intro s fuel rows ha hf
-    unfold alignedUp at ha
-    have : s = h := by simpa using ha
-    subst this
-    exact ⟨fuel, hf, rfl⟩
-  | succ k ih =>
-    intro s fuel rows ha hf
-    by_cases hsh : s = h
-    · subst hsh; exact ⟨fuel, hf, rfl⟩
-    · unfold alignedUp at ha
-      have hb : (s == h) = false := by simpa using hsh
-      simp only [hb, Bool.false_or] at ha
-      cases hpar : (Doc.nodeAt d.stages (s, 0)).bind (·.parent) with
-      | none => rw [hpar] at ha; simp at ha
-      | some sp =>
-        obtain ⟨s', j⟩ := sp
-        rw [hpar] at ha
-        simp only [Bool.and_eq_true, decide_eq_true_eq] at ha
-        obtain ⟨⟨hlt, hhang⟩, hal⟩ := ha
-        obtain ⟨f, rfl⟩ : ∃ f, fuel = f + 1 := ⟨fuel - 1, by omega⟩
-        obtain ⟨h1, h2, h3⟩ := hangs_spec d n s s' hhang
-        obtain ⟨rest, hrest⟩ := rowCoords_cons s n hn
-        have hrow := preambleRow_quiet d o fs (rowCoords s n) (nodesOf d s n) h1 h2
-        have hps : ((nodesOf d s n).map (·.parent)).mapM (m := Option) id = some (rowCoords s' n) := by
-          rw [h3, optMapM_some]
-        have h0 : ((s, 0) == ((0, 0) : Coord)) = false := by
-          have : s ≠ 0 := by omega
-          simp [this]
-        rw [loop_step d o fs f (rowCoords s n) rest (s, 0) rows [] false _ _ hrest h0 hrow hps]
-        simp only [Bool.false_eq_true, if_false]
-        exact ih s' f rows hal (by omega)
-
-/-- **the backwards walk over unsplit spine paths recovers the header line and nothing else** -/
-theorem preamble_flat (d : Doc) (o : Opts) (fs n h : Nat) (c0 : Coord) (k k' fuel : Nat) (H : List Str)
-    (hn : 0 < n) (hh : 0 < h) (hfuel : fs < fuel)
-    (hal : alignedUp d n h k fs = true) (hl : headerLine d o n h c0 = true) (hch : quietChain d k' c0 = true)
-    (hH : (nodesOf d h n).mapM (exportToken d o) = .ok H) :
-    preambleLoop d o fs fuel (rowCoords fs n) [] = .ok [H.filter (fun s => !s.isEmpty)] := by
-  obtain ⟨fuel', hf', heq⟩ := loop_aligned d o fs n h hn k fs fuel [] hal hfuel
-  rw [heq]
-  obtain ⟨f, rfl⟩ : ∃ f, fuel' = f + 1 := ⟨fuel' - 1, by omega⟩
-  obtain ⟨h1, h2, h3⟩ := headerLine_spec d o n h c0 hl
-  obtain ⟨rest, hrest⟩ := rowCoords_cons h n hn
-  have hne : nodesOf d h n ≠ [] := by
-    unfold nodesOf
-    intro e
-    have := congrArg List.length e
-    simp at this
-    omega
-  have hrow := preambleRow_header d o fs (rowCoords h n) (nodesOf d h n) H h1 h2 hne hH
-  have hps : ((nodesOf d h n).map (·.parent)).mapM (m := Option) id = some (List.replicate n c0) := by
-    rw [h3, optMapM_some]
-  have h0 : ((h, 0) == ((0, 0) : Coord)) = false := by
-    have : h ≠ 0 := by omega
-    simp [this]
-  rw [loop_step d o fs f (rowCoords h n) rest (h, 0) [] _ true _ _ hrest h0 hrow hps]
-  simp only [if_true]
-  exact loop_chain d o fs n hn k' c0 f _ hch
 
 /-! ### the signatures in force -/
 
@@ -507,46 +561,181 @@ theorem signatureRows_settled (d : Doc) (o : Opts) (fs ts : Nat) (hset : sigsSet
   simp only [bind, Except.bind] at this ⊢
   rw [this]
 
+/-! ### the walk as a whole -/
+
+theorem parentsOf_head (d : Doc) (o : Opts) (fs : Nat) (c0 : Coord) (rest : List Coord) (h : silentRow d o fs (c0 :: rest) = true) :
+    ∃ nd p, Doc.nodeAt d.stages c0 = some nd ∧ nd.parent = some p ∧ (parentsOf d (c0 :: rest)).head? = some p := by
+  unfold silentRow at h
+  rw [List.all_eq_true] at h
+  have hc := h c0 (by simp)
+  unfold silentCell at hc
+  cases hn : Doc.nodeAt d.stages c0 with
+  | none => rw [hn] at hc; simp at hc
+  | some nd =>
+    rw [hn] at hc
+    simp only [Bool.and_eq_true] at hc
+    cases hp : nd.parent with
+    | none => rw [hp] at hc; simp at hc
+    | some p => exact ⟨nd, p, rfl, hp, by simp [parentsOf, hn, hp]⟩
+
+/-- from the first line of the excerpt up to the line of the `**` cells only lines of null tokens are collected -/
+theorem loop_walk (d : Doc) (o : Opts) (fs n h : Nat) (hn : 0 < n) (hpe : parentsEarlier d = true) :
+    ∀ (k : Nat) (cs : List Coord) (fuel : Nat) (rows : List (List Str)), walkUp d o fs n h k cs = true →
+      (∀ c0, cs.head? = some c0 → c0.1 < fuel) →
+      ∃ fuel' S, h < fuel' ∧ (∀ r ∈ S, emptyRow r = true) ∧
+        preambleLoop d o fs fuel cs rows = preambleLoop d o fs fuel' (rowCoords h n) (S ++ rows) := by
+  have base : ∀ (cs : List Coord) (fuel : Nat) (rows : List (List Str)), cs = rowCoords h n → (∀ c0, cs.head? = some c0 → c0.1 < fuel) →
+      ∃ fuel' S, h < fuel' ∧ (∀ r ∈ S, emptyRow r = true) ∧
+        preambleLoop d o fs fuel cs rows = preambleLoop d o fs fuel' (rowCoords h n) (S ++ rows) := by
+    intro cs fuel rows hcs hf
+    subst hcs
+    obtain ⟨rest, hrest⟩ := rowCoords_cons h n hn
+    exact ⟨fuel, [], hf (h, 0) (by rw [hrest]; rfl), by simp, rfl⟩
+  intro k
+  induction k with
+  | zero =>
+    intro cs fuel rows hw hf
+    unfold walkUp at hw
+    exact base cs fuel rows (by simpa using hw) hf
+  | succ k ih =>
+    intro cs fuel rows hw hf
+    by_cases hcs : cs = rowCoords h n
+    · exact base cs fuel rows hcs hf
+    · unfold walkUp at hw
+      have hb : (cs == rowCoords h n) = false := by simpa using hcs
+      simp only [hb, Bool.false_or] at hw
+      cases cs with
+      | nil => simp at hw
+      | cons c0 rest =>
+        simp only [Bool.and_eq_true, decide_eq_true_eq] at hw
+        obtain ⟨⟨hlt, hsil⟩, hw'⟩ := hw
+        have hc0 := hf c0 rfl
+        obtain ⟨f, rfl⟩ : ∃ f, fuel = f + 1 := ⟨fuel - 1, by omega⟩
+        obtain ⟨row, keep, hrow, hempty⟩ := preambleRow_silent d o fs (c0 :: rest) hsil
+        obtain ⟨nd, p, hnd, hp, hhead⟩ := parentsOf_head d o fs c0 rest hsil
+        have hpl := parentsEarlier_spec d hpe c0 p nd hnd hp
+        have h0 : (c0 == ((0, 0) : Coord)) = false := by
+          have : c0.1 ≠ 0 := by omega
+          cases c0 with
+          | mk a b => simp at this ⊢; intro ha; exact absurd ha this
+        rw [loop_step d o fs f (c0 :: rest) rest c0 rows row keep _ _ rfl h0 hrow (optMapM_some _)]
+        obtain ⟨fuel', S, hf', hS, heq⟩ := ih (parentsOf d (c0 :: rest)) f (if keep then row :: rows else rows) hw'
+          (by intro c1 hc1; rw [hhead] at hc1; cases hc1; omega)
+        cases keep with
+        | false =>
+          simp only [Bool.false_eq_true, if_false] at heq ⊢
+          exact ⟨fuel', S, hf', hS, heq⟩
+        | true =>
+          simp only [if_true] at heq ⊢
+          refine ⟨fuel', S ++ [row], hf', ?_, ?_⟩
+          · intro r hr
+            rcases List.mem_append.mp hr with hr | hr
+            · exact hS r hr
+            · simp only [List.mem_singleton] at hr; subst hr; exact hempty
+          · rw [heq]; simp
+
+/-- **the backwards walk recovers the header line and, besides it, only lines of null tokens** -/
+theorem preamble_flat (d : Doc) (o : Opts) (fs n h : Nat) (c0 : Coord) (k k' fuel : Nat) (H : List Str)
+    (hn : 0 < n) (hh : 0 < h) (hfuel : fs < fuel) (hpe : parentsEarlier d = true)
+    (hal : walkUp d o fs n h k (rowCoords fs n) = true) (hl : headerLine d o n h c0 = true) (hch : quietChain d k' c0 = true)
+    (hH : (nodesOf d h n).mapM (exportToken d o) = .ok H) :
+    ∃ S, (∀ r ∈ S, emptyRow r = true) ∧
+      preambleLoop d o fs fuel (rowCoords fs n) [] = .ok (H.filter (fun s => !s.isEmpty) :: S) := by
+  obtain ⟨fuel', S, hf', hS, heq⟩ := loop_walk d o fs n h hn hpe k (rowCoords fs n) fuel [] hal
+    (by intro c1 hc1
+        obtain ⟨rest, hrest⟩ := rowCoords_cons fs n hn
+        rw [hrest] at hc1
+        cases hc1
+        exact hfuel)
+  refine ⟨S, hS, ?_⟩
+  rw [heq]
+  obtain ⟨f, rfl⟩ : ∃ f, fuel' = f + 1 := ⟨fuel' - 1, by omega⟩
+  obtain ⟨h1, h2, h3⟩ := headerLine_spec d o n h c0 hl
+  obtain ⟨rest, hrest⟩ := rowCoords_cons h n hn
+  have hne : nodesOf d h n ≠ [] := by
+    unfold nodesOf
+    intro e
+    have := congrArg List.length e
+    simp at this
+    omega
+  have hrow := preambleRow_header d o fs (rowCoords h n) (nodesOf d h n) H h1 h2 hne hH
+  have hps : ((nodesOf d h n).map (·.parent)).mapM (m := Option) id = some (List.replicate n c0) := by
+    rw [h3, optMapM_some]
+  have h0 : ((h, 0) == ((0, 0) : Coord)) = false := by
+    have : h ≠ 0 := by omega
+    simp [this]
+  rw [loop_step d o fs f (rowCoords h n) rest (h, 0) _ _ true _ _ hrest h0 hrow hps]
+  simp only [if_true, List.append_nil]
+  exact loop_chain d o fs n hn k' c0 f _ hch
+
 /-! ### the excerpt -/
 
 /-- **C08, the recovered preamble of a later excerpt**: on the core, the lines in front of the first line of the excerpt are the
-    line of the `**` cells (each printed as the header of its own spine) followed by the signatures in force on every spine path -
-    the entries of `last_signature_nodes` of the first line, which by `C10_sigs_recurrence` are the nearest signatures above it on
-    that path -, nothing else: no operator line, no line of an unselected spine, no signature twice. -/
+    line of the `**` cells (each printed as the header of its own spine), lines `S` that hold nothing but null tokens (they are dropped
+    when the text is written), and the signatures in force on every spine path - the entries of `last_signature_nodes` of the first
+    line, which by `C10_sigs_recurrence` are the nearest signatures above it on that path -, nothing else: no open operator, no line
+    of an unselected spine, no signature twice. -/
 theorem C08_preamble_flat (d : Doc) (o : Opts) (fs ts n h : Nat) (c0 : Coord) (H : List Str)
     (hcore : flatCore d o fs n h c0 = true)
     (hH : (nodesOf d h n).mapM (exportToken d o) = .ok H) :
-    preambleOf d o fs ts = (sigRowsAll d o fs).map (fun sig => [H.filter (fun s => !s.isEmpty)] ++ sig) := by
+    ∃ S, (∀ r ∈ S, emptyRow r = true) ∧
+      preambleOf d o fs ts = (sigRowsAll d o fs).map (fun sig => (H.filter (fun s => !s.isEmpty) :: S) ++ sig) := by
   unfold flatCore at hcore
   simp only [Bool.and_eq_true, decide_eq_true_eq, beq_iff_eq] at hcore
   obtain ⟨⟨⟨⟨⟨⟨⟨⟨hn, hh⟩, hfs⟩, hlen⟩, hal⟩, hl⟩, hch⟩, hset⟩, hpe⟩ := hcore
+  obtain ⟨S, hS, hloop⟩ := preamble_flat d o fs n h c0 d.stages.length d.stages.length (d.stages.length + 1) H hn hh (by omega) hpe hal hl hch hH
+  refine ⟨S, hS, ?_⟩
   unfold preambleOf
   have hcoords : (List.range ((d.stages[fs]?.getD []).length)).map (fun i => (fs, i)) = rowCoords fs n := by
     rw [hlen]; rfl
   rw [hcoords]
   simp only []
-  rw [preamble_flat d o fs n h c0 d.stages.length d.stages.length (d.stages.length + 1) H hn hh (by omega) hal hl hch hH]
-  rw [signatureRows_settled d o fs ts hset hpe]
+  rw [hloop, signatureRows_settled d o fs ts hset hpe]
   unfold sigRowsAll
   simp only [bind, Except.bind, pure, Except.pure, Except.map]
 
-/-- **C08, a later excerpt as a whole** (`from_measure ≥ 1`): header line, signatures in force, the lines of the measures unchanged
-    (`C08_body_is_full_score_rows`), the synthetic terminator. -/
+/-- **C08, a later excerpt as a whole** (`from_measure ≥ 1`): header line, lines of null tokens, signatures in force, the lines of the
+    measures unchanged (`C08_body_is_full_score_rows`), the synthetic terminator. -/
 theorem C08_excerpt_flat (d : Doc) (o : Opts) (fs n h : Nat) (c0 : Coord) (H : List Str) (sig : List (List Str))
     (hfrom : hasFrom o = true) (hv : validate d o = .ok ()) (hfs : startStageOf d o = .ok fs)
     (hcore : flatCore d o fs n h c0 = true)
     (hH : (nodesOf d h n).mapM (exportToken d o) = .ok H)
     (hsig : sigRowsAll d o fs = .ok sig) :
-    exportParts d o = (bodyRows d o fs (toStageOf d o)).map (fun body =>
-      ⟨[H.filter (fun s => !s.isEmpty)] ++ sig, body,
-       terminatorFor o (([H.filter (fun s => !s.isEmpty)] ++ sig) ++ body.map (·.2))⟩) := by
+    ∃ S, (∀ r ∈ S, emptyRow r = true) ∧
+      exportParts d o = (bodyRows d o fs (toStageOf d o)).map (fun body =>
+        ⟨(H.filter (fun s => !s.isEmpty) :: S) ++ sig, body,
+         terminatorFor o (((H.filter (fun s => !s.isEmpty) :: S) ++ sig) ++ body.map (·.2))⟩) := by
+  obtain ⟨S, hS, hpre⟩ := C08_preamble_flat d o fs (toStageOf d o) n h c0 H hcore hH
+  refine ⟨S, hS, ?_⟩
   unfold exportParts fromPart
   simp only [hv, hfrom, if_true, hfs, bind, Except.bind, pure, Except.pure]
-  rw [C08_preamble_flat d o fs (toStageOf d o) n h c0 H hcore hH, hsig]
+  rw [hpre, hsig]
   simp only [Except.map]
 
+theorem renderRows_append (a b : List (List Str)) : renderRows (a ++ b) = renderRows a ++ renderRows b := by
+  unfold renderRows
+  rw [List.filter_append, List.flatMap_append]
+
+theorem renderRows_silent (S : List (List Str)) (hS : ∀ r ∈ S, emptyRow r = true) : renderRows S = [] := by
+  unfold renderRows
+  have : S.filter (fun r => !emptyRow r) = [] := by
+    apply List.filter_eq_nil_iff.mpr
+    intro r hr
+    simp [hS r hr]
+  rw [this]; rfl
+
+theorem terminatorFor_last (o : Opts) (X Y B : List (List Str)) (hB : B ≠ []) : terminatorFor o (X ++ B) = terminatorFor o (Y ++ B) := by
+  unfold terminatorFor
+  have hl : ∀ Z : List (List Str), (Z ++ B).getLast? = B.getLast? := by
+    intro Z
+    rw [List.getLast?_append]
+    cases hb : B.getLast? with
+    | none => exact absurd (List.getLast?_eq_none_iff.mp hb) hB
+    | some b => rfl
+  rw [hl X, hl Y]
+
 /-- **C08, the text of a later excerpt on the core** -/
-theorem C08_excerpt_spec (d : Doc) (o : Opts) (r : Except Err Str) (h : specExcerpt d o = some r) : exportString d o = r := by
+theorem C08_excerpt_spec (d : Doc) (o : Opts) (r : Str) (h : specExcerpt d o = some r) : exportString d o = .ok r := by
   unfold specExcerpt at h
   cases hf : hasFrom o with
   | false => simp [hf] at h
@@ -570,12 +759,34 @@ theorem C08_excerpt_spec (d : Doc) (o : Opts) (r : Except Err Str) (h : specExce
             cases hsig : sigRowsAll d o fs with
             | error e => simp [hH, hsig] at h
             | ok sig =>
-              simp only [hH, hsig, Option.some.injEq] at h
-              subst h
-              unfold flatCoreOf at hc
-              unfold exportString
-              rw [C08_excerpt_flat d o fs _ _ _ H sig hf hv hs hc hH hsig]
-              cases bodyRows d o fs (toStageOf d o) <;> simp [Except.map, Parts.rows, List.append_assoc]
+              cases hbody : bodyRows d o fs (toStageOf d o) with
+              | error e => simp [hH, hsig, hbody] at h
+              | ok body =>
+                simp only [hH, hsig, hbody] at h
+                cases hbe : body.isEmpty with
+                | true => simp [hbe] at h
+                | false =>
+                  simp only [hbe, Bool.false_eq_true, if_false, Option.some.injEq] at h
+                  subst h
+                  unfold flatCoreOf at hc
+                  obtain ⟨S, hS, hparts⟩ := C08_excerpt_flat d o fs _ _ _ H sig hf hv hs hc hH hsig
+                  unfold exportString
+                  rw [hparts, hbody]
+                  simp only [Except.map, Parts.rows, Except.ok.injEq]
+                  have hB : body.map (·.2) ≠ [] := by
+                    intro e
+                    cases body with
+                    | nil => simp at hbe
+                    | cons _ _ => simp at e
+                  have hterm := terminatorFor_last o ((H.filter (fun s => !s.isEmpty) :: S) ++ sig)
+                    ([H.filter (fun s => !s.isEmpty)] ++ sig) (body.map (·.2)) hB
+                  rw [hterm]
+                  generalize terminatorFor o ([H.filter (fun s => !s.isEmpty)] ++ sig ++ body.map (·.2)) = T
+                  generalize body.map (·.2) = B
+                  generalize H.filter (fun s => !s.isEmpty) = Hf
+                  have e1 : (Hf :: S) ++ sig ++ B ++ T = [Hf] ++ (S ++ (sig ++ B ++ T)) := by simp
+                  have e2 : [Hf] ++ sig ++ B ++ T = [Hf] ++ (sig ++ B ++ T) := by simp
+                  rw [e1, e2, renderRows_append, renderRows_append S, renderRows_silent S hS, renderRows_append, List.nil_append, renderRows_append [Hf], renderRows_append (sig ++ B)]
 
 /-! ### the hypotheses are satisfiable: a two-spine score with a reference record, clefs, meters, two measures -/
 
@@ -594,7 +805,19 @@ def toyRows : List (List Str) :=
 theorem toy_in_core :
     (Importer.importRows toyP toyRows).toOption.bind
       (fun d => specExcerpt d { spineTypes := Gen.headers, cats := Cat.all, fromM := some 2, toM := some 2 })
-    = some (.ok "**kern\t**kern\n*clefG2\t*clefF4\n*M4/4\t*M4/4\n=2\t=2\n4e\t4f\n==\t==\n*-\t*-\n".toList) := by
+    = some ("**kern\t**kern\n*clefG2\t*clefF4\n*M4/4\t*M4/4\n=2\t=2\n4e\t4f\n==\t==\n*-\t*-\n".toList) := by
+  decide +kernel
+
+/-- a score whose first measure splits the spine and joins it again before the barline -/
+def toyRows2 : List (List Str) :=
+  [["**kern".toList], ["*clefG2".toList], ["=1".toList], ["*^".toList], ["4c".toList, "4e".toList], ["*v".toList, "*v".toList],
+   ["=2".toList], ["4d".toList], ["==".toList], ["*-".toList]]
+
+/-- measure 2 lies in the core although a split was opened and closed above it: the operators leave no trace in the excerpt -/
+theorem toy_closed_split_in_core :
+    (Importer.importRows toyP toyRows2).toOption.bind
+      (fun d => specExcerpt d { spineTypes := Gen.headers, cats := Cat.all, fromM := some 2, toM := some 2 })
+    = some "**kern\n*clefG2\n=2\n4d\n==\n*-\n".toList := by
   decide +kernel
 
 end KM.C08R
